@@ -103,7 +103,8 @@ def scenario(ctx, p):
     if g.n == 4:
         inst.ac_status[a] = r4.build_ac_status(a, 1, mode_code, 2, 0, 0, 22, 740, 0)
     else:
-        inst.ac_status[a] = r5.build_ac_status(a, 1, mode_code, 2, 120, 0, 0, 0, 0, 740, 0)
+        # (for mode changes the reported set-point, 16.0, lies inside the cooling range and outside the heating range 17..31)
+        inst.ac_status[a] = r5.build_ac_status(a, 1, mode_code, 2, 60 if call == "ac_mode" else 120, 0, 0, 0, 0, 740, 0)
     # last reported timers
     if call in ("ac_timer_time", "ac_timer_clear") and vary == "config":
         tm = (ctx.bits("on_dis", 1), ctx.int("on_h", 0, 23), ctx.int("on_m", 0, 59), ctx.bits("off_dis", 1), ctx.int("off_h", 0, 23), ctx.int("off_m", 0, 59))
